@@ -31,7 +31,21 @@ pub fn run_chunks(
     loop {
         while running.len() < jobs.max(1) && next < nchunks && first_bad.map(|b| next < b).unwrap_or(true) {
             let of = scratch.join(format!("chunk-{}.json", next));
-            let mut cmd = mk(next, &of);
+            // every worker runs under an address-space limit: a runaway worker must not take the
+            // machine (and other checks) down with it
+            let inner = mk(next, &of);
+            let mut cmd = Command::new("sh");
+            cmd.arg("-c").arg("ulimit -v 12000000; exec \"$0\" \"$@\"").arg(inner.get_program()).args(inner.get_args());
+            for (k, v) in inner.get_envs() {
+                match v {
+                    Some(v) => {
+                        cmd.env(k, v);
+                    }
+                    None => {
+                        cmd.env_remove(k);
+                    }
+                }
+            }
             cmd.stdout(Stdio::null()).env_remove("SHUTTLE_RANDOM_SEED");
             let child = cmd.spawn().map_err(|e| format!("cannot spawn worker: {}", e))?;
             running.push((next, child, of, Instant::now()));
